@@ -419,6 +419,18 @@ func (s *Sim) TasksOf(n *Node) []*Task {
 	return out
 }
 
+// TaskGids maps the goroutine ids of all tasks ever registered in this run
+// to their task ids.
+func (s *Sim) TaskGids() map[uint64]string {
+	s.mu.Lock()
+	defer s.mu.Unlock()
+	out := map[uint64]string{}
+	for gid, t := range s.tasks {
+		out[gid] = t.ID
+	}
+	return out
+}
+
 func (t *Task) Point() string { return t.point }
 
 // Parks is the number of times the task has parked at a yield point.
